@@ -1,4 +1,4 @@
-import AcqVerif.Runtime.Data.IdReach
+import AcqVerif.Runtime.Data.FinReach
 /-!
 # C04 — every acquired frame reaches storage exactly once, in order, bit-exact
 
@@ -18,10 +18,14 @@ has no scripted fault:
 * `channel_used_within_its_rules`: in every reachable state `sink.in` is in a state reached by a well-formed history of
   `channel.c`'s API — so everything C01/C02/C05 prove about the channel applies to the running pipeline.
 
+* `undisturbed_acquisition_is_complete`: once the sink has ended its final flush normally (`drained`: an empty read with the
+  storage still Running) in a run that nobody disturbed (no abort, no storage failure, no failed start, no re-configuration
+  while it ran), the storage holds **exactly** the camera's frames `0 … N-1`, `N = max_frame_count`.
+
 The premise `clean` (the sink's reader had consumed everything when the storage was started) holds after every
 `acquire_stop`/`acquire_abort` (they flush the sink's reader) and initially; it is a ghost recorded by the model at `start`.
-Completeness (all `N` frames by the time `acquire_stop` returns) needs fairness; it is decided by the implementation-side
-oracle `stored-N-frames-expected` over the explored schedules (partial, see DESIGN.md C04).
+That the sink *does* reach its final flush (liveness) needs fairness; on the implementation it is decided by the oracle
+`stored-N-frames-expected` and the HANG oracle over the explored schedules (partial, see DESIGN.md C04).
 -/
 namespace AcqVerif.C04
 open AcqVerif.Runtime AcqVerif.Channel
@@ -107,6 +111,51 @@ theorem stored_is_a_prefix_of_the_camera_frames (hf : (getS rt s).cam.failAt = n
   have hi := (DId.micro rt h s hf he hm hF).frames
   rw [hl, framesIn_since, hi]
   exact expected_below _ _ _ _ _ hF
+
+/-- (4) **C04, completeness**: when the sink has drained an undisturbed run, the storage holds exactly the camera's frames
+`0 … N-1` (`N = max_frame_count`), in order, unchanged. -/
+theorem undisturbed_acquisition_is_complete (hf : (getS rt s).cam.failAt = none) (he : (getS rt s).cam.emptyEvery = 0)
+    (hm : rt.client.misused = false) (hF : 0 < (getS rt s).F) (hc : (getS rt s).sto.clean = true)
+    (hd : (getS rt s).sto.drained = true) (hnd : (getS rt s).sto.disturbed = false) :
+    (getS rt s).sto.log = (List.range (getS rt s).maxFrames).map (fun j => (⟨(getS rt s).cam.run, j, j⟩ : Frame)) := by
+  have hl := (DLog.micro rt h s hf he hm).log hc
+  have hi := DId.micro rt h s hf he hm hF
+  have hE := DEnd.micro rt h s hf he hm hF
+  have hFn := DFin.micro rt h s hf he hm hF
+  obtain ⟨happ, hcomp, hcur⟩ := hE.drained hd hnd hc
+  have hdrop : (getS rt s).sto.dropped = false := by
+    cases hdd : (getS rt s).sto.dropped with
+    | false => rfl
+    | true => have := hE.dropped hdd; rw [hnd] at this; cases this
+  -- all N frames were committed
+  have hn : (getS rt s).sto.ncommit = (getS rt s).maxFrames := by
+    rcases hFn.fin_count hcomp.1 hdrop with h1 | h1 | h1
+    · rw [hnd] at h1; cases h1
+    · exact absurd (hE.w2 h1) (by rw [hd]; simp)
+    · rw [h1]; exact hcomp.2
+  -- and everything committed was appended
+  rw [hl.2.2, framesIn_since, hi.frames]
+  have htot := hi.total
+  simp only [cv_total] at htot happ
+  have hcover : (getS rt s).sto.base + ((getS rt s).sto.appended - (getS rt s).sto.base) = (getS rt s).sto.base + (getS rt s).sto.ncommit * (getS rt s).F := by
+    have := hl.1; omega
+  rw [hcover, hn]
+  -- every expected frame starts below base + N*F
+  have hall : (expected (getS rt s).cam.run (getS rt s).sto.base (getS rt s).F (getS rt s).maxFrames).filter
+      (fun p => decide (p.1 < (getS rt s).sto.base + (getS rt s).maxFrames * (getS rt s).F)) =
+      expected (getS rt s).cam.run (getS rt s).sto.base (getS rt s).F (getS rt s).maxFrames := by
+    rw [List.filter_eq_self]
+    intro p hp
+    unfold expected at hp
+    simp only [List.mem_map, List.mem_range] at hp
+    obtain ⟨j, hj, rfl⟩ := hp
+    simp only [decide_eq_true_eq]
+    have : j * (getS rt s).F + (getS rt s).F ≤ (getS rt s).maxFrames * (getS rt s).F := by
+      have := Nat.mul_le_mul_right (getS rt s).F (show j + 1 ≤ (getS rt s).maxFrames from hj)
+      rw [Nat.add_mul, Nat.one_mul] at this; exact this
+    omega
+  rw [hall]
+  simp [expected, List.map_map, Function.comp_def]
 
 omit h in
 /-- two streams never mix: the invariants are per stream, and an action of a worker of stream `s` changes no other
